@@ -315,6 +315,9 @@ def gen_spec(rng, **knobs) -> dict:
                           "enabled": rng.random() >= k["disabled"]})
         blk = {"name": f"b{b}", "enabled": rng.random() >= k["disabled"] / 2, "conjunction": C(rng, tn),
                "disjunction": C(rng, sn), "implication": C(rng, tn), "activation": act, "rules": rules}
+        if k.get("norm_functions") and rng.random() < 0.08:
+            key = C(rng, ["conjunction", "disjunction", "implication"])
+            blk[key] = "NormFunction:" + C(rng, NORM_FORMULAS_S if key == "disjunction" else NORM_FORMULAS_T)
         if rng.random() < k.get("missing_operators", 0.02):
             blk[C(rng, ["conjunction", "disjunction", "implication", "activation"])] = None
         blocks.append(blk)
@@ -413,8 +416,18 @@ def build_term(t: dict):
     return cls(t["name"], **{k: fdec(v) for k, v in a.items()})
 
 
+NORM_FORMULAS_T = ["a * b", "min(a, b)", "max(0.0, a + b - 1.0)"]
+NORM_FORMULAS_S = ["a + b - a * b", "max(a, b)", "min(1.0, a + b)"]
+
+
 def build_norm(name: str | None):
-    return getattr(fl, name)() if name else None
+    """Registered norm by class name, or 'NormFunction:<formula over a and b>' - the public extension point: a norm
+    that *owns a Function term* (an object with state that a copy must not share)."""
+    if not name:
+        return None
+    if name.startswith("NormFunction:"):
+        return fl.NormFunction(fl.Function.create("nf", name.split(":", 1)[1]))
+    return getattr(fl, name)()
 
 
 def build_defuzzifier(d: dict | None):
@@ -805,3 +818,27 @@ def example_spec(rng, allow_fn_reads_output: bool = False, randomise_cascade: bo
         if o["defuzzifier"] and "resolution" in o["defuzzifier"] and o["defuzzifier"]["resolution"] > 200:
             o["defuzzifier"]["resolution"] = C(rng, [20, 50, 100, 200])
     return sp
+
+
+def classes_of(spec: dict) -> set[str]:
+    """Component classes a configuration contains (for the reach section of the evidence)."""
+    out = {t["cls"] for v in spec["inputs"] + spec["outputs"] for t in v["terms"]}
+    for o in spec["outputs"]:
+        out.add((o["defuzzifier"] or {"cls": "NoDefuzzifier"})["cls"])
+        out.add((o["aggregation"] or "NoAggregation").split(":")[0])
+    for b in spec["blocks"]:
+        out.add((b["activation"] or {"cls": "NoActivation"})["cls"])
+        for key in ("conjunction", "disjunction", "implication"):
+            out.add((b[key] or "NoOperator").split(":")[0])
+
+        def walk(a):
+            if "op" in a:
+                walk(a["l"])
+                walk(a["r"])
+            else:
+                out.update("hedge:" + h for h in a["hedges"])
+        for r in b["rules"]:
+            walk(r["ant"])
+            for c in r["con"]:
+                walk(c)
+    return out
